@@ -40,7 +40,9 @@ ItemOK(a, b) ==
   /\ a.k = b.k
   /\ CASE a.k = "out" -> a.s = b.s
        [] a.k = "err" -> ErrsOK(a.errs, b.errs)
-       [] a.k = "list" -> /\ a.ln = b.ln /\ a.text = b.s
+       \* (sessions that exist only as text were translated by the parser, which does not keep
+       \* parentheses: their listed text is not compared)
+       [] a.k = "list" -> /\ a.ln = b.ln /\ (Case.textual \/ a.text = b.s)
                           \* the underlined ranges are those of the line's diagnostics
                           /\ (\A rg \in a.cols : rg[1] >= 0) => a.cols = {<<b.cols[i][1], b.cols[i][2]>> : i \in DOMAIN b.cols}
        [] a.k = "input" -> a.s = b.s /\ a.caps = b.caps
